@@ -2,7 +2,9 @@
 
 Case lines (see harness/h_C10.cpp):
   pp <linelength> <prec> <compress> <lossless> <vals>            model + implementation
-  xp ...                                                          implementation only (Spec oracle)
+  pm <linelength> <prec> <compress> <lossless> <vals> <address>  whole message, model + implementation
+  xp / xm ...                                                     implementation only (Spec oracle):
+                                                                  lists with time tags
 The Spec oracle below is the round trip itself evaluated on the implementation's
 output; it never looks at the Coq model.
 """
@@ -206,9 +208,13 @@ def gen_struct(rng, tier, dist, n):
             addr = "/" + "/".join("".join(rng.choice("abcxyz019_#*?") for _ in range(rng.randint(1, 6)))
                                   for _ in range(rng.randint(1, 3)))
             bump("message")
-            out.append("xm %d %d %d 1 %s %s" % (ll, prec, compress, ";".join(vals), addr.encode().hex()))
+            kind = "xm" if any(v.startswith("t:") for v in vals) else "pm"
+            out.append("%s %d %d %d 1 %s %s" % (kind, ll, prec, compress, ";".join(vals), addr.encode().hex()))
         else:
-            out.append("xp %d %d %d 1 %s" % (ll, prec, compress, ";".join(vals)))
+            # time tags (other than in the Spec oracle) are not in the Coq model
+            kind = "xp" if any(v.startswith("t:") for v in vals) else "pp"
+            bump("stream:" + kind)
+            out.append("%s %d %d %d 1 %s" % (kind, ll, prec, compress, ";".join(vals)))
     return out
 
 def gen(rng, tier, dist):
@@ -250,7 +256,7 @@ def canon(case, line):
     if case.startswith("x"):
         return "SKIP"
     # the model does not compute rtosc_arg_vals_eq
-    return " ".join(t for t in line.split(" ") if not t.startswith("EQ=") and not t.startswith("A="))
+    return " ".join(t for t in line.split(" ") if not t.startswith("EQ="))
 
 def _wrap(v, bits):
     m = 1 << bits
